@@ -175,7 +175,7 @@ REG['C07'] = dict(
     text='Lean 4 theorems over a model of process_lines batching: the processing order is a permutation (stable, descending '
          'width); the batches partition it (no empty batch, every line in exactly one batch), hence every input position gets '
          'exactly one result and it is the network output for that line (given locality); the widest line determines the tensor '
-         'width unless cropped to the engine maximum; frame window = image of the un-padded columns; sparse storage keeps exactly '
+         'width unless cropped to the engine maximum; a batch of more than one line stays within the 480*batch_size column budget at the 32-aligned width of each of its lines; frame window = image of the un-padded columns; sparse storage keeps exactly '
          'the logits with posterior >= threshold. Correspondence: exact batch composition/padded widths/windows against the real '
          'process_lines with a recording run_ocr; oracle on the real PytorchEngineLineOCR with a TorchScript stub: each line\'s '
          'transcription/window/logits equal those of the line processed alone, for any order, batch mates and batch size; the glue '
